@@ -37,6 +37,27 @@ pub fn run_sfs(bin: &str, args: &[String], stdin: &[u8]) -> Out {
     Out { code: out.status.code().unwrap_or(-1), stdout: out.stdout, stderr: String::from_utf8_lossy(&out.stderr).into_owned() }
 }
 
+/// bytes the process has read so far (`rchar` of /proc/<pid>/io)
+fn rchar(pid: u32) -> Option<u64> {
+    let s = std::fs::read_to_string(format!("/proc/{pid}/io")).ok()?;
+    s.lines().find_map(|l| l.strip_prefix("rchar: ").and_then(|v| v.trim().parse().ok()))
+}
+
+/// wait until the process is blocked in a `read` on descriptor 0 (/proc/<pid>/syscall: `<nr> 0x0 …`); false when it has gone, /proc
+/// cannot be read, or the wait times out
+fn wait_reading_stdin(pid: u32, max_ms: u128) -> bool {
+    let nr = if cfg!(target_arch = "aarch64") { "63 0x0 " } else { "0 0x0 " };
+    let t0 = std::time::Instant::now();
+    while t0.elapsed().as_millis() < max_ms {
+        match std::fs::read_to_string(format!("/proc/{pid}/syscall")) {
+            Ok(s) => { if s.starts_with(nr) { return true; } }
+            Err(_) => return false,
+        }
+        std::thread::sleep(std::time::Duration::from_millis(1));
+    }
+    false
+}
+
 /// like `run_sfs`, the input arriving on stdin in two pieces with a pause in between (the first `read` ends after `k` bytes)
 pub fn run_sfs_split(bin: &str, args: &[String], stdin: &[u8], k: usize) -> Out {
     let args = &with_verbosity(args, stdin.len());
@@ -47,10 +68,21 @@ pub fn run_sfs_split(bin: &str, args: &[String], stdin: &[u8], k: usize) -> Out 
         .spawn().expect("spawn sfs");
     let mut si = child.stdin.take().unwrap();
     let data = stdin.to_vec(); let k = k.min(data.len());
+    let pid = child.id();
     let w = std::thread::spawn(move || {
-        std::thread::sleep(std::time::Duration::from_millis(40));
-        let _ = si.write_all(&data[..k]); let _ = si.flush();
-        std::thread::sleep(std::time::Duration::from_millis(120));
+        // no timing assumptions (the machine may be busy): the first burst is written once the child sits in `read(0, …)`, the second once
+        // it has taken the first and sits there again (or has gone); where /proc cannot be read, fall back to pauses
+        if wait_reading_stdin(pid, 5000) {
+            let r0 = rchar(pid).unwrap_or(0);
+            let _ = si.write_all(&data[..k]); let _ = si.flush();
+            let t0 = std::time::Instant::now();
+            while t0.elapsed().as_millis() < 5000 { match rchar(pid) { Some(r) if r < r0 + k as u64 => std::thread::sleep(std::time::Duration::from_millis(1)), _ => break } }
+            let _ = wait_reading_stdin(pid, 5000);
+        } else {
+            std::thread::sleep(std::time::Duration::from_millis(40));
+            let _ = si.write_all(&data[..k]); let _ = si.flush();
+            std::thread::sleep(std::time::Duration::from_millis(120));
+        }
         let _ = si.write_all(&data[k..]);
     });
     let out = child.wait_with_output().expect("wait sfs");
